@@ -1,8 +1,10 @@
 package props
 
 import (
+	"bufio"
 	"bytes"
 	"fmt"
+	"io"
 	"os"
 	"path/filepath"
 
@@ -35,9 +37,57 @@ func init() {
 			"the strict validator harness/ref/smf.go (header length 6, ntrks == number of MTrk chunks, exact chunk lengths, exactly one end-of-track and last, canonical VLQs of at most 4 bytes, running status only directly after a channel event of the same track, no alien chunks, no trailing bytes)",
 			"for deltas above 0x0FFFFFFF (5-byte form accepted by the API) only the round trip is required, not validity (statement)",
 		},
-		Require: []string{"writefile_onto_existing", "writeto_file_at_offset", "files_validated", "vlq_values", "vlq_5byte_values", "bytes_emitted", "determinism_checks", "chunk_boundary_files", "length_vlq_boundaries", "running_status_events", "body_sizes_swept", "write_change_write_values", "writes_after_failed_write"},
+		Require: []string{"writefile_onto_existing", "writeto_file_at_offset", "files_validated", "vlq_values", "vlq_5byte_values", "bytes_emitted", "determinism_checks", "chunk_boundary_files", "length_vlq_boundaries", "running_status_events", "body_sizes_swept", "write_change_write_values", "writes_after_failed_write", "writes_into_other_destination_kinds"},
 		Run:     runC03,
 	})
+}
+
+// richWriter offers every optional writer interface of the standard library (io.StringWriter, io.ByteWriter,
+// io.ReaderFrom): whichever the library picks, the destination must end up with the same bytes.
+type richWriter struct {
+	buf bytes.Buffer
+}
+
+func (w *richWriter) Write(p []byte) (int, error)       { return w.buf.Write(p) }
+func (w *richWriter) WriteString(s string) (int, error) { return w.buf.WriteString(s) }
+func (w *richWriter) WriteByte(b byte) error            { return w.buf.WriteByte(b) }
+func (w *richWriter) ReadFrom(r io.Reader) (int64, error) {
+	return w.buf.ReadFrom(r)
+}
+
+var c03Kind int
+
+// c03OtherDestination writes the value once more into another kind of destination and returns what arrived there.
+func c03OtherDestination(s *smf.SMF) (kind string, got []byte, n int64, err error) {
+	c03Kind++
+	switch c03Kind % 4 {
+	case 0:
+		var b bytes.Buffer
+		n, err = s.WriteTo(&b)
+		return "*bytes.Buffer", b.Bytes(), n, err
+	case 1:
+		var rw recWriter
+		bw := bufio.NewWriterSize(&rw, []int{16, 64, 4096, 65536}[(c03Kind/4)%4])
+		n, err = s.WriteTo(bw)
+		if ferr := bw.Flush(); err == nil {
+			err = ferr
+		}
+		return "*bufio.Writer", rw.buf.Bytes(), n, err
+	case 2:
+		var w richWriter
+		n, err = s.WriteTo(&w)
+		return "writer with WriteString/WriteByte/ReadFrom", w.buf.Bytes(), n, err
+	default:
+		pr, pw := io.Pipe()
+		done := make(chan []byte)
+		go func() {
+			bt, _ := io.ReadAll(pr)
+			done <- bt
+		}()
+		n, err = s.WriteTo(pw)
+		pw.Close()
+		return "io.Pipe", <-done, n, err
+	}
 }
 
 // c03Check writes a value twice into recording writers and validates the bytes.
@@ -61,6 +111,11 @@ func c03Check(c *mon.Ctx, s *smf.SMF, sh *ref.File, in map[string]any, strictReq
 	c.Count("determinism_checks", 1)
 	if err2 != nil || n2 != n || !bytes.Equal(w2.buf.Bytes(), b) {
 		c.Violation("nondeterministic", fmt.Sprintf("second WriteTo of the same value emitted different bytes (sizes %d / %d, err %v)", n, n2, err2), in, mon.Hex(b), mon.Hex(w2.buf.Bytes()))
+	}
+	if kind, got, n3, err3 := c03OtherDestination(s); err3 != nil || n3 != n || !bytes.Equal(got, b) {
+		c.Violation("destination-kind", fmt.Sprintf("the same value written into a %s: %d bytes arrived, size %d reported, err %v; a plain io.Writer received %d bytes", kind, len(got), n3, err3, len(b)), in, mon.Hex(head(b, 200)), mon.Hex(head(got, 200)))
+	} else {
+		c.Count("writes_into_other_destination_kinds", 1)
 	}
 	if strictRequired {
 		f, err := ref.Decode(b, ref.DecodeOpts{Strict: true})
